@@ -403,6 +403,18 @@ class _Taps:
 
 
 def _feats(case):
+    """float32 features; double precision for a third of the configurations that cannot draw a warp (the
+    resampler works in single precision, a double batch with a warp is refused by it; masking alone must
+    leave every other entry of a double batch bit-identical)"""
+    x = _feats32(case)
+    cfg = case["cfg"]
+    if not cfg["max_time_warp"] and not cfg["max_freq_warp"] and int(case["feat_seed"]) % 3 == 0 \
+            and not case.get("handset"):
+        x = x.double() * (1.0 + 2.0 ** -40)  # values that are NOT representable in single precision
+    return x
+
+
+def _feats32(case):
     import torch
 
     g = torch.Generator().manual_seed(int(case["feat_seed"]))
@@ -548,7 +560,7 @@ def _masks(case, params, lens):
 def _bits(x):
     import torch
 
-    return x.contiguous().view(torch.int32)
+    return x.contiguous().view(torch.int64 if x.dtype == torch.float64 else torch.int32)
 
 
 def _judge_grid_rows(mon, st, which, grid, src, flow, lens, T, order):
